@@ -31,6 +31,9 @@ def gen_curve(rng, lo=32, hi=64, clampy=False):
             v = rng.choice([Fraction(5, 4), Fraction(1, 200), Fraction(98), v])
         return [v]
     loads = sorted(rng.sample([Fraction(i, 8) for i in range(0, 9)], k))
+    if rng.random() < 0.25:            # a data sheet with an overload point (110 %, 125 % of rated power)
+        loads = sorted(set(loads[:-1] + [rng.choice([Fraction(11, 10), Fraction(5, 4)])]))
+        k = len(loads)
     style = rng.choice(["rising", "any", "any", "peak"])
     vals = sorted(val() for _ in range(k)) if style == "rising" else [val() for _ in range(k)]
     pts = [[l, v] for l, v in zip(loads, vals)]
@@ -194,6 +197,22 @@ class P(Prop):
                 one = [float(np.atleast_1d(np.asarray(f(float(x))[0], dtype=float))[0]) for x in xs]
                 out["series"] = [float(v) for v in np.atleast_1d(ser)]
                 out["one_by_one"] = one
+            # the setters, used twice with ONE buffer that the caller refills in place between the two calls
+            if qs and case["stream"] != "machine":
+                vals = [float(q[2]) for q in qs]
+                first, second = vals[: max(1, len(vals) // 2)], vals[len(vals) // 2:][: max(1, len(vals) // 2)]
+                m = min(len(first), len(second))
+                hist = {}
+                for name, setter, getter in (("set_power_input_from_output", comp.set_power_input_from_output, comp.get_power_input_from_bidirectional_output),
+                                             ("set_power_output_from_input", comp.set_power_output_from_input, comp.get_power_output_from_bidirectional_input)):
+                    buf = np.array(first[:m])
+                    setter(buf)
+                    buf[:] = second[:m]
+                    got, _ = setter(buf)
+                    want, _ = getter(np.array(second[:m]))
+                    hist[name] = {"got": [float(v) for v in np.atleast_1d(got)], "want": [float(v) for v in np.atleast_1d(want)],
+                                  "buffer_kept": bool(np.array_equal(buf, np.array(second[:m])))}
+                out["setter_history"] = hist
             # round trip: delivered -> supplied -> delivered
             rt = []
             if case["stream"] == "basic":
@@ -287,6 +306,13 @@ class P(Prop):
             for s, o in zip(obs["series"], obs["one_by_one"]):
                 if abs(s - o) > 1e-9 * max(1.0, abs(o)):
                     return f"series evaluation gives {s}, element-by-element {o}"
+        for name, h in (obs.get("setter_history") or {}).items():
+            if not h["buffer_kept"]:
+                return f"{name} changed the caller's buffer"
+            for g, w in zip(h["got"], h["want"]):
+                if abs(g - w) > 1e-9 * max(1.0, abs(w)):
+                    return (f"{name} called a second time with the same buffer, refilled in place, returns {g} where the conversion of "
+                            f"the buffer's content is {w}")
         for q, e in zip(case["qs"], obs.get("roundtrip_err", [])):
             if e > 0.005:
                 return f"round trip of {float(q[2])} kW misses by {e * 100:.3f} % of rated power (claimed: within 0.5 %)"
@@ -343,6 +369,8 @@ class P(Prop):
             if any(v > 1 or v < Fraction(1, 100) for v in vals):
                 t.append("clamp-active")
             t.append(f"points={len(c)}")
+            if len(c) > 1 and any(l > 1 for l, _ in c):
+                t.append("curve-with-overload-point")
             m = max(obs.get("roundtrip_err", [0]) or [0])
             t.append("roundtrip<=0.1%" if m <= 0.001 else "roundtrip<=0.5%" if m <= 0.005 else "roundtrip>0.5%")
         if case["stream"] == "serial":
